@@ -35,6 +35,7 @@ import (
 	"github.com/relab/hotstuff/core/eventloop"
 	"github.com/relab/hotstuff/core/logging"
 	"github.com/relab/hotstuff/internal/proto/clientpb"
+	"github.com/relab/hotstuff/internal/proto/hotstuffpb"
 	"github.com/relab/hotstuff/internal/tree"
 	"github.com/relab/hotstuff/protocol"
 	"github.com/relab/hotstuff/security/blockchain"
@@ -201,6 +202,15 @@ func c16Call(f func() hotstuff.ID) (o c16Obs) {
 		}
 	}()
 	return c16Obs{id: f()}
+}
+
+func c16FirstMsg(os ...c16Obs) string {
+	for _, o := range os {
+		if o.panicked {
+			return o.msg
+		}
+	}
+	return ""
 }
 
 func c16Leader(lr LeaderRotation, view hotstuff.View) c16Obs {
@@ -395,11 +405,13 @@ type c16Chain struct {
 func c16MakeSig(flavour int, ids []hotstuff.ID) hotstuff.QuorumSignature {
 	switch flavour {
 	case 1:
-		sigs := make([]*crypto.ECDSASignature, len(ids))
-		for i, id := range ids {
-			sigs[i] = crypto.RestoreECDSASignature(binary.LittleEndian.AppendUint32([]byte("c16"), uint32(id)), id)
+		// what a replica holds after receiving the certificate: the wire form through the converter
+		// (an ECDSAMultiSignature without entries becomes a non-nil signature without participants)
+		w := &hotstuffpb.ECDSAMultiSignature{}
+		for _, id := range ids {
+			w.Sigs = append(w.Sigs, &hotstuffpb.ECDSASignature{Signer: uint32(id), Sig: binary.LittleEndian.AppendUint32([]byte("c16"), uint32(id))})
 		}
-		return crypto.NewMulti(sigs...)
+		return hotstuffpb.QuorumSignatureFromProto(&hotstuffpb.QuorumSignature{Sig: &hotstuffpb.QuorumSignature_ECDSASigs{ECDSASigs: w}})
 	case 2:
 		seen := map[hotstuff.ID]bool{}
 		ok := len(ids) > 0
@@ -528,6 +540,26 @@ func c16GenChain(rng *rand.Rand, n, length int, startView uint64, kind int, univ
 			b.signers = c16Subset(rng, n, q+rng.Intn(n-q+1))
 		} else {
 			b.signers = nil
+		}
+		if kind == 2 {
+			// crafted certificates that pass no quorum check but can sit in a committed head: a certificate for
+			// the genesis block is accepted without looking at its signature (VerifyQuorumCert), so a view-1
+			// block can carry a non-nil signature without participants; signer sets made of recent proposers
+			f := hotstuff.NumFaulty(n)
+			recent := []hotstuff.ID{prop}
+			for j := len(c.blocks) - 1; j >= 0 && len(recent) < f; j-- {
+				if !slices.Contains(recent, c.blocks[j].proposer) {
+					recent = append(recent, c.blocks[j].proposer)
+				}
+			}
+			switch x := rng.Intn(4); {
+			case x == 0 || (i == 0 && rng.Intn(2) == 0):
+				b.signers = []hotstuff.ID{} // signature present, no participants
+			case x == 1:
+				b.signers = []hotstuff.ID{prop} // only the block's own proposer
+			case x == 2:
+				b.signers = recent // only proposers of the last f blocks (f >= 1), else the own proposer
+			}
 		}
 		if kind == 1 {
 			switch rng.Intn(8) {
@@ -781,8 +813,12 @@ func c16Carousel(v *verifOut) {
 				default:
 					v.Count("carousel_fallback")
 				}
-				if !wf {
+				if o[0].panicked || o[1].panicked || o[2].panicked || first.panicked {
+					// "no scheme panics": whatever certificate the committed head carries
+					v.Oracle(false, "carousel:panic", fmt.Sprintf("carousel GetLeader(%d) panicked (%s) under a committed head at view %d whose certificate lists the signers %v; last proposers %v", view, c16FirstMsg(o[0], o[1], o[2], first), hv, signers, sc.chain.chainFrom(k)), in)
+				} else if !wf {
 					v.Count("carousel_malformed_certificate")
+					v.Oracle(true, "", "", nil)
 				} else {
 					// the property's oracle on the Go answers
 					last := sc.chain.chainFrom(k)
@@ -855,6 +891,13 @@ func c16Carousel(v *verifOut) {
 	for rd := 0; rd < v.Pick(2, 12); rd++ {
 		for _, n := range []int{2, 4, 7, 10, 16} {
 			run(c16NewScenarioIDs(rng, c16BigMembers(rng, n), n, 1+rng.Intn(3), 3+rng.Intn(6), uint64(rng.Intn(5)), rd%2, "large-ids"))
+		}
+	}
+	// crafted certificates: signature without participants (as received over the wire), signer sets that
+	// consist of recent proposers only; the first block has view 1 and certifies genesis
+	for rd := 0; rd < v.Pick(2, 10); rd++ {
+		for _, n := range []int{1, 4, 7, 10} {
+			run(c16NewScenario(rng, n, 1+(rd+n)%3, 2+rng.Intn(5), 0, 2, "crafted-certificates"))
 		}
 	}
 }
@@ -1059,8 +1102,11 @@ func c16Reputation(v *verifOut) {
 			default:
 				v.Count("reputation_old_view")
 			}
-			if !wf {
+			if o[0].panicked || o[1].panicked || o[2].panicked || oD.panicked {
+				v.Oracle(false, "reputation:panic", fmt.Sprintf("reputation GetLeader(%d) panicked (%s) under a committed head at view %d whose certificate lists the signers %v", view, c16FirstMsg(o[0], o[1], o[2], oD), hv, signers), in)
+			} else if !wf {
 				v.Count("reputation_malformed_certificate")
+				v.Oracle(true, "", "", nil)
 			} else {
 				switch {
 				case o[0].panicked || o[1].panicked || o[2].panicked:
@@ -1131,6 +1177,11 @@ func c16Reputation(v *verifOut) {
 	for rd := 0; rd < v.Pick(2, 12); rd++ {
 		for _, n := range []int{2, 4, 7, 13} {
 			run(c16NewScenarioIDs(rng, c16BigMembers(rng, n), n, 1+rng.Intn(3), 4+rng.Intn(6), uint64(rng.Intn(5)), 0, "large-ids"), 10)
+		}
+	}
+	for rd := 0; rd < v.Pick(1, 6); rd++ {
+		for _, n := range []int{1, 4, 7} {
+			run(c16NewScenario(rng, n, 1+(rd+n)%3, 2+rng.Intn(5), 0, 2, "crafted-certificates"), 8)
 		}
 	}
 }
